@@ -37,7 +37,7 @@ Definition judge_camion (rec : list Z) : Z :=
         else if negb (Bool.eqb (was =? 1) (mat_eqb Sm M)) then 124
         else if negb (v' =? 1) then 125                                            (* the output passes the test *)
         else if negb (Nat.eqb ms2 m && Nat.eqb ns2 n && mat_eqb Sm2 Sm && (was2 =? 1)) then 126   (* idempotent *)
-        else if tu_bf m n M && negb (v =? 1) then 127                              (* every TU matrix is Camion-signed *)
+        else if negb (v =? 1) && Nat.leb (m * n) 42 && tu_bf m n M then 127        (* every TU matrix is Camion-signed (oracle: small sizes) *)
         else
           let reg := if Nat.leb (m * n) 20 then regular_bf m n (support M) else false in
           if reg && negb (tu_bf m n Sm) then 128                                   (* regular support: output is TU *)
